@@ -10,13 +10,21 @@ Print Assumptions op_translate_is_glsa.
 
 (* the repaired implementation flags exactly the affected packages: for every GLSA-format entry and
    every installed package outside the known classes (glob = string prefix where that differs from a
-   component prefix; an rlt range without revision), provided the revision is the last tie-breaker
-   of the version order on the versions involved (revs_compat, checked on every generated case) *)
+   component prefix; an rlt range without revision), all versions involved being valid versions *)
 Theorem affected_is_spec_partial : forall e p,
-  read_entry e <> None -> known_class e p = false -> revs_compat e p = true ->
+  read_entry e <> None -> known_class e p = false -> versions_valid e p = true ->
   flagged true e p = affected_spec e p.
 Proof. exact affected_is_spec_partial_proof. Qed.
 Print Assumptions affected_is_spec_partial.
+
+(* for all valid versions the revision is the last tie-breaker of ver_cmp (from C01's ver_cmp_is_pms):
+   this is what makes "~v and op v-rN" mean "compare revisions of the same version" *)
+Theorem rev_last_tiebreak : forall v1 v2 r1 r2,
+  valid_version_core v1 = true -> valid_version_core v2 = true ->
+  ver_cmp v1 r1 v2 r2
+  = if Z.eqb (ver_cmp v1 None v2 None) 0 then cmpN (rev_val r1) (rev_val r2) else ver_cmp v1 None v2 None.
+Proof. exact rev_last_tiebreak_proof. Qed.
+Print Assumptions rev_last_tiebreak.
 
 (* the pinned tree behaves like the repaired one on every entry without a slotted glob / rle / rge
    range and without an unaffected glob *)
